@@ -30,7 +30,19 @@ Report(rules, e) ==
 
 Init == /\ l = 1 /\ hst = [h \in Handles |-> InitHandle] /\ fidx = [f \in FileIds |-> 0] /\ scn = 1 /\ nviol = 0 /\ nbl = 0
 
-Step(rules, e, h2) ==
+\* C10: the same call history under another schedule of the read callback.  An event marked tw repeats, on a twin handle whose
+\* callback delivers other sizes, the call recorded on the line before; on an intact file the two must answer alike: same code,
+\* same position, same byte cursor, same decode state, and for reads the same samples (position of the chunk, identity, count).
+TwinFields == {"ret", "tell", "tella", "rs", "cur", "ta", "id", "mf", "bs", "ch", "frames", "pt", "rt", "ttms", "hs"}
+TwinRule(e) ==
+  IF "tw" \in DOMAIN e /\ l > 1 /\ "h" \in DOMAIN e /\ Strict(hst[e.h], HF(e.h))
+  THEN LET p == Tr[l - 1] IN
+       IF p.e = e.e /\ \A k \in TwinFields : (k \in DOMAIN e <=> k \in DOMAIN p) /\ (k \in DOMAIN e => e[k] = p[k])
+       THEN {} ELSE {"SameUnderAnyReadSchedule"}
+  ELSE {}
+
+Step(rules0, e, h2) ==
+  LET rules == rules0 \cup TwinRule(e) IN
   /\ Report(rules, e)
   /\ nbl' = nbl + (IF e.e = "ReadF" /\ BlendJudged(hst[e.h], HF(e.h), e) THEN 1 ELSE 0)
   /\ (e.e = "End" => PrintT("STAT " \o ToJson([nbl |-> nbl])))
